@@ -156,9 +156,14 @@ func runStreams(c StreamCase) error {
 				if cut <= prev || cut > len(st.Data) {
 					continue
 				}
-				n, err := w.Write(st.Data[prev:cut])
+				chunk := append([]byte{}, st.Data[prev:cut]...) // the writer gets its own copy ...
+				n, err := w.Write(chunk)
 				if err != nil || n != cut-prev {
 					errs[i] = fmt.Errorf("task %s: Write(%d bytes) returned n=%d err=%v", st.Name, cut-prev, n, err)
+					return
+				}
+				if !bytes.Equal(chunk, st.Data[prev:cut]) { // ... which it must not modify (io.Writer contract)
+					errs[i] = fmt.Errorf("task %s: Write modified the caller's buffer (%d bytes, first difference at %d)", st.Name, len(chunk), firstDiff(chunk, st.Data[prev:cut]))
 					return
 				}
 				prev = cut
@@ -306,12 +311,8 @@ func genStream(rt *rapid.T, k int, name string, cutInEsc bool) Stream {
 		for len(line) < length {
 			switch rapid.IntRange(0, 11).Draw(rt, "tok") {
 			case 0:
-				if length < 3900 { // lines with escape sequences stay below the bufio size
-					line = append(line, rapid.SampledFrom(seqs).Draw(rt, "seq")...)
-					hasEsc = true
-				} else {
-					line = append(line, alpha[0])
-				}
+				line = append(line, rapid.SampledFrom(seqs).Draw(rt, "seq")...)
+				hasEsc = true
 			case 1:
 				r := rapid.SampledFrom([]string{"é", "…", "日本", "😀"}).Draw(rt, "uni")
 				line = append(line, r...)
@@ -320,7 +321,7 @@ func genStream(rt *rapid.T, k int, name string, cutInEsc bool) Stream {
 			case 4:
 				// the terminal bell, typically right behind a coloured word: "ESC[31mERROR BEL"
 				if bel && rapid.IntRange(0, 2).Draw(rt, "bel") == 0 {
-					if length < 3900 && rapid.Bool().Draw(rt, "bel-after-colour") {
+					if rapid.Bool().Draw(rt, "bel-after-colour") {
 						line = append(line, rapid.SampledFrom(seqs).Draw(rt, "seq")...)
 						line = append(line, alpha[0], alpha[1])
 					}
